@@ -272,7 +272,7 @@ def py_spec(case):
 
 
 def extra_checks(tier, rng, findings):
-    if tier != 'thorough':
+    if tier != 'thorough' and __import__('os').environ.get('VERIF_RELEASE_RERUN') != '1':
         return {}
     import os
     import vlib
